@@ -202,15 +202,28 @@ def handleDir (cat patterns treeEnc gtab impl : String) : Verdict :=
       -- a failing run is legitimate only if an eligible file cannot be read
       (match expectedDir (fun b p => g b 0 p) ps entries "" with
        | none => ("ok", "")
-       | some _ => ("VIOL", "the run fails although every eligible file is readable"))
+       | some _ => ("VIOL", "eligibility: the run fails although every eligible file is readable"))
     | some im =>
       let bad := (allNames ++ im.map (·.1)).filter fun p =>
         match expectedDir (fun b p => g b 0 p) ps entries p with
         | some want => sortPairs want != sortPairs (implFn p)
         | none => true
+      -- which clause fails: eligibility (C16) = a reported name that is no eligible file of the tree, or an eligible file
+      -- with findings for a selected pattern that is not reported under it at all; otherwise the union itself (C03, C15)
+      let eligible := eligibleContentsSpec entries
+      let strayName := (im.flatMap fun e => e.2.map (·.1)).find? fun f => !(eligible.any fun e => e.1 == f)
+      let unanalysed := eligible.find? fun e =>
+        match e.2 with
+        | some bytes => ps.any fun p => !(g bytes 0 p).isEmpty && !((implFn p).any fun fl => fl.1 == e.1)
+        | none => false
       match bad with
       | [] => ("ok", "")
-      | p :: _ => ("VIOL", s!"pattern {p}: expected {repr (expectedDir (fun b p => g b 0 p) ps entries p)} got {repr (implFn p)}")
+      | p :: _ =>
+        let cls := match strayName, unanalysed with
+          | some f, _ => s!"eligibility: `{f}` is reported but is not an eligible file of the tree; "
+          | none, some e => s!"eligibility: eligible file `{e.1}` has findings but is not reported; "
+          | none, none => "union: "
+        ("VIOL", s!"{cls}pattern {p}: expected {repr (expectedDir (fun b p => g b 0 p) ps entries p)} got {repr (implFn p)}")
   { kind := "DIR", group := cat, agree := agree, oracle := oracle.1,
     detail := if agree != "D" && oracle.1 != "VIOL" then "" else s!"{oracle.2}|model={mtext}|impl={impl}" }
 
